@@ -2241,3 +2241,31 @@ mod tests {
         }
     }
 }
+
+/// Add-only accessors used by the external verification harness (feature `verif-hooks`).
+#[cfg(feature = "verif-hooks")]
+pub mod verif_hooks {
+    use crate::acronym::AcronymSet;
+    use crate::case_model::Style;
+    use std::collections::BTreeMap;
+
+    /// `generate_variant_map_with_acronyms(..).to_btree_map()` as the scanner and the
+    /// rename planner use it.
+    pub fn variant_map_with_acronyms(
+        search: &str,
+        replace: &str,
+        styles: Option<&[Style]>,
+        acronym_set: &AcronymSet,
+        enable_plural_variants: bool,
+    ) -> BTreeMap<String, String> {
+        super::generate_variant_map_with_acronyms(
+            search,
+            replace,
+            styles,
+            acronym_set,
+            None,
+            enable_plural_variants,
+        )
+        .to_btree_map()
+    }
+}
